@@ -25,8 +25,10 @@ def units(tier):
         for xa in (False, True):
             us.append(Unit(D.DRNewFile, {'len_fi': n, 'xa': xa}))
     us.append(Unit(D.AddChildToDrDuplicate))
-    for n in (1, 63, 64, 65, 66):
+    for n in (0, 1, 63, 64, 65, 66):
         us.append(Unit(N.JolietName, {'namelen': n}))
+    for n in (0, 1, 5, 254):
+        us.append(Unit(N.UDFName, {'namelen': n}))
     for nm in ('\u00e9' * 32, '\u00e9' * 33, '\U0001F600' * 16, '\U0001F600' * 17, '\U0001F600' * 33, '\u4e2d' * 21, '\u4e2d' * 22):
         us.append(Unit(N.JolietName, {'concrete': nm}))
     for n in ((1, 2, 254, 255, 300) if tier == 'quick' else (1, 2, 3, 100, 253, 254, 255, 256, 300)):
